@@ -344,7 +344,24 @@ class C30(Check):
         if special and dom[0] != "universal" and self.tag_active("poly_inner_solve_domain"):
             self.skip("known:poly_inner_solve_domain")
             return
-        res = self.call(case["op"], expr, dom)
+        # product forms: solve() unions the per-factor answers; with a restricted domain every factor with
+        # irrational / non-real roots contributes an unevaluated Intersection (KF-C30-07 when there are two)
+        irr_factors = 0
+        if "specs" in case and dom[0] != "universal" and case["op"] == "solve":
+            if form == "factored":
+                irr_factors = len({tuple(sp) for sp in specs if sp[0] != "q"})
+            elif form == "mixed":
+                h = max(1, len(specs) // 2)
+                irr_factors = sum(1 for part in (specs[:h], specs[h:]) if any(sp[0] != "q" for sp in part))
+        if irr_factors >= 2 and self.tag_active("factored_domain_union_recursion"):
+            self.skip("known:factored_domain_union_recursion")
+            return
+        try:
+            res = self.call(case["op"], expr, dom)
+        except engine.DriverTimeout:
+            if irr_factors < 2:
+                raise
+            res = self.call(case["op"], expr, dom, timeout=150)   # let the stack overflow decide, see judge_trig
         if self.declined(res):
             return
         got = B(res)
